@@ -282,6 +282,98 @@ let run_apoly toks cout =
 
 let run_a f = try f () with Fuel -> "FUEL" | Fail m -> "CHECK fail " ^ m
 
+
+(* ---------------------------------------------------------------- the rest of the interval API: exact predictions *)
+let b01 b = if b then "1" else "0"
+let sg z = string_of_int (sgn_of_z z)
+let sdi = str_itv str_dy
+let sri = str_itv str_rat
+let svi = str_itv str_val
+let p_di toks = p_itv dy_of d0 toks
+let p_ri toks = p_itv rat_of q0 toks
+let p_vi toks = p_itv val_of VNone toks
+let opt_itv ss = function Some i -> str_itv ss i | None -> "SKIP"
+
+let run_more (toks : string list) : string option =
+  match toks with
+  | "dsplit" :: r ->
+      let (i, r) = p_di r in
+      (match r with
+       | [lo; ro] -> Some (match di_from_split i (lo = "1") (ro = "1") with Some (l, rr) -> sdi l ^ " ; " ^ sdi rr | None -> "SKIP")
+       | _ -> raise (Bad "dsplit"))
+  | "dinter" :: r ->
+      let (i1, r) = p_di r in let (i2, _) = p_di r in
+      Some (match di_intersection i1 i2, di_intersection i2 i1 with
+            | Some a, Some b -> sdi a ^ " ; " ^ sdi b | _, _ -> "SKIP")
+  | "ddisj" :: r ->
+      let (i1, r) = p_di r in let (i2, _) = p_di r in
+      Some (b01 (di_disjoint i1 i2) ^ " " ^ b01 (di_disjoint i2 i1))
+  | "dequals" :: r ->
+      let (i1, r) = p_di r in let (i2, _) = p_di r in
+      Some (b01 (di_equals i1 i2) ^ " " ^ b01 (di_equals i2 i1))
+  | "dcmp" :: r ->
+      let (i, r) = p_di r in
+      (match r with
+       | [v] -> Some (match val_of v with
+                      | VInt z -> sg (di_cmp_integer i z)
+                      | VDy d -> sg (di_cmp_dyadic i d) ^ " " ^ b01 (di_contains i d)
+                      | VRat q -> sg (di_cmp_rational i q)
+                      | _ -> raise (Bad "dcmp value"))
+       | _ -> raise (Bad "dcmp"))
+  | "dcollapse" :: r -> let (i, r) = p_di r in (match r with [q] -> Some (sdi (di_collapse_to i (dy_of q))) | _ -> raise (Bad "dcollapse"))
+  | "dseta" :: r -> let (i, r) = p_di r in (match r with [q; o] -> Some (opt_itv str_dy (di_set_a i (dy_of q) (o = "1"))) | _ -> raise (Bad "dseta"))
+  | "dsetb" :: r -> let (i, r) = p_di r in (match r with [q; o] -> Some (opt_itv str_dy (di_set_b i (dy_of q) (o = "1"))) | _ -> raise (Bad "dsetb"))
+  | "dscale" :: r -> let (i, r) = p_di r in (match r with [n] -> Some (opt_itv str_dy (di_scale i (z_of_string n))) | _ -> raise (Bad "dscale"))
+  | "dsize" :: r ->
+      let (i, _) = p_di r in
+      Some ((match di_size i with Some z -> string_of_z z | None -> "INT_MIN") ^ " " ^ b01 i.ipt ^ (if i.ipt then " " ^ str_dy i.ia else ""))
+  | ["dfromz"; a; ao; b; bo] -> Some (opt_itv str_dy (di_from_integer (z_of_string a) (ao = "1") (z_of_string b) (bo = "1")))
+  | ["rfromz"; a; ao; b; bo] -> Some (opt_itv str_rat (ri_from_integer (z_of_string a) (ao = "1") (z_of_string b) (bo = "1")))
+  | "dassign" :: r ->
+      let (i, r) = p_di r in let (f, _) = p_di r in
+      let x = di_assign i f in
+      Some (String.concat " ; " [sdi x; sdi (di_assign f i); sdi x; sdi f; sdi i])
+  | "rassign" :: r ->
+      let (i, r) = p_ri r in let (f, _) = p_ri r in
+      let x = ri_assign i f in
+      Some (String.concat " ; " [sri x; sri (ri_assign f i); sri x; sri f; sri i] ^ " ; " ^ b01 f.ipt ^ (if f.ipt then " " ^ str_rat f.ia else ""))
+  | ["rfromdy"; a; ao; b; bo] -> Some (opt_itv str_rat (ri_from_dyadic (dy_of a) (ao = "1") (dy_of b) (bo = "1")))
+  | "rfromdi" :: r -> let (d, _) = p_di r in Some (sri (ri_from_dyadic_interval d))
+  | "rcval" :: r ->
+      let (i, r) = p_ri r in
+      (match r with
+       | [v] ->
+           let v = val_of v in
+           Some (b01 (ri_contains_value i v) ^
+                 (match v with
+                  | VInt z -> " " ^ b01 (ri_contains_integer i z)
+                  | VDy d -> " " ^ b01 (ri_contains_dyadic i d)
+                  | VRat q -> " " ^ b01 (ri_contains i q)
+                  | _ -> ""))
+       | _ -> raise (Bad "rcval"))
+  | "rcalg" :: r ->
+      let (i, r) = p_ri r in
+      (match r with
+       | [tok] ->
+           let (kind, xv) = (try value_of_token tok with Bad_value m -> raise (Bad m)) in
+           let cmpq (q : rat) = (match xv with XMinf -> -1 | XPinf -> 1 | XFin x -> sgn_of_z (rn_cmp_q x q)) in  (* sign of v - q *)
+           let inside =
+             if i.ipt then cmpq i.ia = 0
+             else (let ca = cmpq i.ia in if i.ia_open then ca > 0 else ca >= 0) && (let cb = cmpq i.ib in if i.ib_open then cb < 0 else cb <= 0) in
+           Some (b01 inside ^ (if kind = "r" || kind = "a" then (match xv with XFin (RA _) -> " " ^ b01 inside | XFin (RQ _) -> " " ^ b01 inside | _ -> "") else ""))
+       | _ -> raise (Bad "rcalg"))
+  | "vcollapse" :: r -> let (i, r) = p_vi r in (match r with [v] -> Some (svi (vi_collapse_to i (val_of v))) | _ -> raise (Bad "vcollapse"))
+  | "vseta" :: r -> let (i, r) = p_vi r in (match r with [v; o] -> Some (opt_itv str_val (vi_set_a i (val_of v) (o = "1"))) | _ -> raise (Bad "vseta"))
+  | "vsetb" :: r -> let (i, r) = p_vi r in (match r with [v; o] -> Some (opt_itv str_val (vi_set_b i (val_of v) (o = "1"))) | _ -> raise (Bad "vsetb"))
+  | "vinfo" :: r ->
+      let (i, _) = p_vi r in
+      let full = { ia = VMinf; ib = VPinf; ia_open = true; ib_open = true; ipt = false } in
+      Some (b01 ((not i.ipt) && vi_is_full i) ^ " " ^ b01 i.ipt ^ (if i.ipt then " " ^ str_val i.ia else "") ^ " " ^
+            (match vi_size_approx i with None -> "INT_MIN" | Some None -> "INT_MAX" | Some (Some z) -> string_of_z z) ^
+            " " ^ b01 (vi_is_full full) ^ " " ^ svi full)
+  | "vswap" :: r -> let (i1, r) = p_vi r in let (i2, _) = p_vi r in Some (svi i2 ^ " ; " ^ svi i1)
+  | _ -> None
+
 let run (toks : string list) (_cout : string list) : string =
   try
     match toks with
@@ -356,5 +448,5 @@ let run (toks : string list) (_cout : string list) : string =
     | "amul" :: r -> run_a (fun () -> run_abin true r _cout)
     | "apow" :: r -> run_a (fun () -> run_apow r _cout)
     | "apoly" :: r -> run_a (fun () -> run_apoly r _cout)
-    | _ -> "UNKNOWN-OP"
+    | _ -> (match run_more toks with Some s -> s | None -> "UNKNOWN-OP")
   with Bad s -> "MODEL-ERROR " ^ s
